@@ -1,7 +1,6 @@
 (* ReGroups.v -- C10_rset_index: does rset.c's re_groupcount agree with the group numbering of the
-   parser (rnode_grpnum: groups numbered in pre-order = the number of NGrp nodes)?  It does not: the
-   bracket scanner of re_groupcount differs from regex.c's brk_len.  Witnesses (all replayed on the
-   real rset.c / regex.c through harness/probe_re.c and the editor, see design.d/C10.md). *)
+   parser (rnode_grpnum: groups numbered in pre-order = the number of NGrp nodes)?  Before fix f534655 it
+   did not (the bracket scanner of re_groupcount differed from regex.c's brk_len; see design.d/C10.md). *)
 From Coq Require Import List Arith Lia Bool ZArith NArith.
 From NV Require Import Bytes GenConsts ReSyntax ReParse ReEmit ReVM ReSem RsetDefs.
 Import ListNotations.
@@ -31,23 +30,16 @@ Definition p_under : bytes := [91; 97; 91; 42; 93; 40; 120; 41]%N.              
 Definition p_over : bytes := [91; 91; 58; 115; 112; 97; 99; 101; 58; 93; 40; 41; 93; 43]%N.  (* [[:space:]()]+ *)
 Definition p_y : bytes := [121]%N.                                                         (* y *)
 
-(* (a) under-count: the combined pattern (([a[*](x))) is accepted and consumed completely, its tree has
-   the two wrapper groups and the group (x), but re_groupcount says the pattern has no group: rset_find
-   reports group 1 unset although the chosen parse gives it the span 1..2 *)
-Lemma under_count :
-  exists t rs, parse_pat (rset_pattern [Some p_under]) = Ok (Some t, []) /\ ngroups t = 3 /\ re_groupcount p_under = 0 /\
+(* the inputs of the repaired defect f534655 (re_groupcount scanned brackets differently from brk_len):
+   (a) [a[*](x) was counted as having no group, (b) [[:space:]()]+ as having one *)
+Lemma fixed_under :
+  exists t rs, parse_pat (rset_pattern [Some p_under]) = Ok (Some t, []) /\ ngroups t = 3 /\ re_groupcount p_under = 1 /\
     rset_make [Some p_under] 0%Z = Ok (Some rs) /\
-    fst (rset_find_d 300 rs [97; 120; 10]%N 2 0%Z) = Ok (0%Z, [(0%Z, 2%Z); ((-1)%Z, (-1)%Z)]) /\
-    fst (regexec_d 300 (rs_prog rs) 0%Z [97; 120; 10]%N 4 REG_NEWLINE) = Ok (Some [(0%Z, 2%Z); (0%Z, 2%Z); (0%Z, 2%Z); (1%Z, 2%Z)]).
+    fst (rset_find_d 300 rs [97; 120; 10]%N 2 0%Z) = Ok (0%Z, [(0%Z, 2%Z); (1%Z, 2%Z)]).
 Proof. eexists. eexists. repeat split; vm_compute; reflexivity. Qed.
 
-(* (b) over-count: in the set { [[:space:]()]+ , y } the wrapper group of the second alternative is
-   group 3 of the combined expression, grp[1] says 4: on the line "y" the set reports no match although
-   the alternative alone matches *)
-Lemma over_count :
-  exists t rs rs1, parse_pat (rset_pattern [Some p_over; Some p_y]) = Ok (Some t, []) /\ ngroups t = 3 /\ re_groupcount p_over = 1 /\
-    rset_make [Some p_over; Some p_y] 0%Z = Ok (Some rs) /\ rs_grp rs = [2%Z; 4%Z; 5%Z] /\
-    rset_make [Some p_y] 0%Z = Ok (Some rs1) /\
-    fst (rset_find_d 300 rs1 [121; 10]%N 1 0%Z) = Ok (0%Z, [(0%Z, 1%Z)]) /\
-    fst (rset_find_d 300 rs [121; 10]%N 1 0%Z) = Ok ((-1)%Z, []).
-Proof. eexists. eexists. eexists. repeat split; vm_compute; reflexivity. Qed.
+Lemma fixed_over :
+  exists t rs, parse_pat (rset_pattern [Some p_over; Some p_y]) = Ok (Some t, []) /\ ngroups t = 3 /\ re_groupcount p_over = 0 /\
+    rset_make [Some p_over; Some p_y] 0%Z = Ok (Some rs) /\ rs_grp rs = [2%Z; 3%Z; 4%Z] /\
+    fst (rset_find_d 300 rs [121; 10]%N 1 0%Z) = Ok (1%Z, [(0%Z, 1%Z)]).
+Proof. eexists. eexists. repeat split; vm_compute; reflexivity. Qed.
